@@ -289,6 +289,31 @@ func Envelopes(run *ev.Run) {
 		}
 		return ""
 	}))
+	// a batch in which every key failed still answers with the whole envelope: results (empty), statuses, errors
+	rec.Script = func(*kit.Invocation) kit.Outcome { return kit.EveryKeyFailed(keys, 404) }
+	_, w, err = tc.BatchGet("things", "/things", keys)
+	check("batch_get-every-key-failed", w, err, "batch_get", "GET", func(_, resp any) string {
+		m := obj(resp)
+		if m == nil {
+			return "response-not-an-object"
+		}
+		if k := hasOnly(m, "results", "statuses", "errors"); k != "" {
+			return "unexpected-envelope-member: " + k
+		}
+		if res, ok := m["results"].(map[string]any); !ok {
+			return "results-missing"
+		} else if len(res) != 0 {
+			return "results-not-empty"
+		}
+		errs := obj(m["errors"])
+		if got, problem := decodeKeys(errs); problem != "" {
+			return problem
+		} else if !reflect.DeepEqual(got, sortedCopy(keys)) {
+			return fmt.Sprintf("batch-error-keys: %q", got)
+		}
+		return ""
+	})
+	rec.Script = nil
 	_, w, err = tc.BatchDelete("things", "/things", keys)
 	check("batch_delete", w, err, "batch_delete", "DELETE", batchShape(keys, statusShape))
 	ents := map[string][]byte{}
